@@ -1283,6 +1283,11 @@ def call_method(R, recv, name, args, kw, node):
         cands = [m for m in recv.t.members if (m.kind, name) in METHODS or (m.kind == "seq" and ("list", name) in METHODS)]
         if not cands:
             nn = [m for m in recv.t.members if m.kind != "none"]
+            if len(nn) > 1 and not R.pure:
+                # several candidate members: keep those the path condition still allows (isinstance / is-None tests already taken)
+                feas = [m for m in nn if R.feasible(recv.t.is_(recv.z, m))]
+                if len(feas) == 1:
+                    nn = feas
             if len(nn) == 1:
                 cands = nn
             else:
